@@ -546,3 +546,111 @@ def new_binding(model, rep, sites, exempt, rule='NEW-BINDING'):
                   witness='G.append(v) / G[0] = v on a module-level list G '
                   'under Feature.LISTS: UnboundLocalError')
   return n
+
+
+# ---------------------------------------------------------------- SCOPE-MOVE
+def _unconditionally_includes(e, scope_anno):
+  """e evaluates to a collection that contains <scope_anno scope>.bound whatever
+  the other operands are: a union (| / .union) with that operand, possibly
+  wrapped in sorted / tuple / list / set / frozenset"""
+  while isinstance(e, ast.Call) and isinstance(e.func, ast.Name) and e.func.id in (
+      'sorted', 'tuple', 'list', 'set', 'frozenset') and len(e.args) == 1:
+    e = e.args[0]
+  ops = []
+
+  def flat(x):
+    if isinstance(x, ast.BinOp) and isinstance(x.op, ast.BitOr):
+      flat(x.left)
+      flat(x.right)
+    elif isinstance(x, ast.Call) and isinstance(x.func, ast.Attribute) and \
+        x.func.attr == 'union' and not x.keywords:
+      flat(x.func.value)
+      for a in x.args:
+        flat(a)
+    else:
+      ops.append(x)
+  flat(e)
+  if len(ops) < 2 and not (len(ops) == 1 and ops[0] is not e):
+    return False
+  for o in ops:
+    t = core.norm(o)
+    if t.endswith('.bound') and scope_anno in t and 'getanno(' in t:
+      return True
+  return False
+
+
+def scope_move(model, rep, sites, rule='SCOPE-MOVE'):
+  """A user *expression* embedded inside a function the template creates (a
+  lambda or a def) is evaluated in a new scope: an assignment expression in it
+  binds a local of that function instead of the user's variable.  Harmless only
+  when the generated function *is* the user's function being rebuilt, when the
+  expression is known to be a constant / plain name on that path, or when the
+  def declares the names the expression binds (its nonlocal declarations are
+  computed from a set that contains the expression's own scope)."""
+  from sa import formula
+  n = 0
+  for s in sites:
+    handler_kind = s.fi.name[len('visit_'):] if s.fi.name.startswith('visit_') else None
+    node_p = (_params(s.fi) or [None])[0]
+    for t in s.templates:
+      for f in ast.walk(t.tree):
+        if not isinstance(f, (ast.FunctionDef, ast.Lambda)):
+          continue
+        body = f.body if isinstance(f.body, list) else [f.body]
+        decls = []          # statement placeholders of the def
+        for b in body:
+          if isinstance(b, ast.Expr) and isinstance(b.value, ast.Name) and \
+              b.value.id in s.kwargs:
+            decls.append(b.value.id)
+        for b in body:
+          if isinstance(b, ast.Expr) and isinstance(b.value, ast.Name) and \
+              b.value.id in s.kwargs:
+            continue        # a statement list: bound names go through the state wiring
+          for x in ast.walk(b):
+            if not (isinstance(x, ast.Name) and x.id in s.kwargs and
+                    isinstance(x.ctx, ast.Load)):
+              continue
+            val = s.kwargs[x.id]
+            org = tpl.origin(model, s.fi, val, s.call)
+            if 'user' not in org:
+              continue
+            n += 1
+            site = '%s:moved(%s)' % (s.fi.site, x.id)
+            vtxt = tpl.xnorm(s.fi, val, s.call)
+            # the user's own lambda / function rebuilt around its body
+            if handler_kind in ('Lambda', 'FunctionDef', 'AsyncFunctionDef') and \
+                node_p is not None and vtxt == node_p + '.body':
+              rep.hold(rule, site, {'same_function': handler_kind}, nontrivial=False)
+              continue
+            # only constants / names reach this call
+            atomic = False
+            for pol, tst in formula.path_condition(s.fi.node, s.call):
+              if pol == 'T' and isinstance(tst, ast.Call) and core.dotted(tst.func) == \
+                  'isinstance' and len(tst.args) == 2 and tpl.xnorm(
+                      s.fi, tst.args[0], s.call) == vtxt:
+                kinds = tst.args[1].elts if isinstance(tst.args[1], ast.Tuple) else [tst.args[1]]
+                if all(core.dotted(k) in ('ast.Constant', 'ast.Name') for k in kinds):
+                  atomic = True
+            if atomic:
+              rep.hold(rule, site, {'only': 'constants or names'})
+              continue
+            # a def whose nonlocal declarations cover the expression's own scope
+            declared = False
+            if isinstance(f, ast.FunctionDef):
+              for d in decls:
+                de = tpl.expand(s.fi, s.kwargs[d], s.call)
+                if isinstance(de, ast.Call) and core.dotted(de.func) == \
+                    'self._create_nonlocal_declarations' and len(de.args) == 1 and \
+                    _unconditionally_includes(de.args[0], 'COND_SCOPE'):
+                  declared = True
+            rep.check(declared, rule, site,
+                      'a user expression is evaluated inside a generated %s: an '
+                      'assignment expression in it binds a local of that function, '
+                      'so the name is unbound (or stale) where the user reads it '
+                      'next' % ('lambda' if isinstance(f, ast.Lambda) else 'function'),
+                      {'placeholder': x.id, 'value': vtxt,
+                       'template': t.text.strip()[:80] if hasattr(t, 'text') else ''},
+                      line=s.call.lineno,
+                      witness='while (v := next(it, None)) is not None: total += v   /   '
+                      'x = (t := 5) if c else 2; return t   /   p and (q := 7); return q')
+  return n
